@@ -29,6 +29,9 @@ fn texts() -> Vec<(&'static str, Vec<&'static str>, Vec<&'static str>)> {
         ("world w1 { import f: func(); export g: func(); }\nworld w2 { include w1 with { f as ff, g as gg }§ }", vec![], vec!["w1", "w2"]),
         ("interface a { type t = u32; type u = string; resource res { constructor(); } resource other { constructor(); } }\ninterface b { use a.{t as u, res as other}; }\ninterface c { use b.{u as v, other as mine}; f: func(x: v, y: borrow<mine>) -> v; }", vec!["a", "b", "c"], vec![]),
         ("interface a { type t = u32; }\ninterface b { use a.{t}; }\ninterface c { use b.{t}; }\ninterface d { use c.{t as tt}; g: func() -> tt; }", vec!["a", "b", "c", "d"], vec![]),
+        ("#key:world-use-after-import-of-same-interface#interface a { type t = u8; }\nworld w { import a; use a.{t}; export g: func(x: t); }", vec!["a"], vec!["w"]),
+        ("#key:world-use-after-inline-interface-use#interface a { resource r { constructor(); } }\nworld w { import i: interface { use a.{r}; f: func(x: borrow<r>); }§ use a.{r}; export g: func(x: r); }", vec!["a"], vec!["w"]),
+        ("#key:include-drops-used-types#interface a { type t = u8; }\nworld w1 { use a.{t}; import f: func(x: t); }\nworld w2 { include w1; export g: func(); }", vec!["a"], vec!["w1", "w2"]),
         ("interface a { variant v { a(list<tuple<u8, u16>>), b(option<option<string>>), c(result), d(result<u8>), e(result<_, u8>) } f: func(x: v); }", vec!["a"], vec![]),
     ]
 }
@@ -46,13 +49,17 @@ fn as_item(k: ItemKind) -> ItemKind { match k { ItemKind::Type(Type::Interface(i
 fn main() {
     let (mut decls, mut texts_n) = (0u64, 0u64);
     let mut samples = vec![];
-    for (ti, (text, ifaces, worlds)) in texts().iter().enumerate() {
+    let mut findings: Vec<String> = vec![];
+    'texts: for (ti, (text, ifaces, worlds)) in texts().iter().enumerate() {
         texts_n += 1;
+        // texts on which a recorded, unrepaired defect is expected carry `#key:<class>#` in front
+        let (key, text): (Option<&str>, &str) = match text.strip_prefix("#key:") { Some(rest) => { let (k, t) = rest.split_once('#').unwrap(); (Some(k), t) } None => (None, text) };
+        let known = |what: String, findings: &mut Vec<String>| -> bool { if let Some(k) = key { findings.push(format!("FINDING {k} {what}")); true } else { false } };
         // `§` marks the one syntactic difference inside the family: WAC terminates an inline interface item and an
         // `include .. with { }` item with `;`, WIT does not
         let src = format!("package test:pkg;\n{}\n", text.replace('§', ";"));
         let doc = match Document::parse(&src) { Ok(d) => d, Err(e) => { println!("C05-WIT text #{ti} is not accepted by the WAC parser ({e}): outside the shared subset\n{src}"); std::process::exit(2); } };
-        let wac_bytes = match doc.resolve(Default::default()).map_err(|e| e.to_string()).and_then(|r| r.encode(Default::default()).map_err(|e| format!("{e:#}"))) { Ok(b) => b, Err(e) => { println!("C05-BOUNDED VIOLATION: text #{ti} is valid WIT but WAC does not resolve / encode it ({e}):\n{src}"); std::process::exit(1); } };
+        let wac_bytes = match doc.resolve(Default::default()).map_err(|e| e.to_string()).and_then(|r| r.encode(Default::default()).map_err(|e| format!("{e:#}"))) { Ok(b) => b, Err(e) => { if known(format!("text #{ti} is valid WIT but WAC does not resolve / encode it ({e}): {}", src.replace('\n', " ")), &mut findings) { continue 'texts; } println!("C05-BOUNDED VIOLATION: text #{ti} is valid WIT but WAC does not resolve / encode it ({e}):\n{src}"); std::process::exit(1); } };
         let wit_src = format!("package test:pkg;\n{}\n", text.replace('§', ""));
         let mut resolve = wit_parser::Resolve::new();
         let pkg = match resolve.push_str("t.wit", &wit_src) { Ok(p) => p, Err(e) => { println!("C05-WIT text #{ti} is not accepted by wit-parser ({e:#}): outside the shared subset\n{src}"); std::process::exit(2); } };
@@ -64,13 +71,14 @@ fn main() {
             decls += 1;
             let a = types[wac.ty()].exports.get(*name).copied();
             let b = types[wit.ty()].exports.get(*name).copied();
-            let (Some(a), Some(b)) = (a, b) else { println!("C05-BOUNDED VIOLATION: `{name}` of text #{ti} is exported by WAC's encoding: {}, by the reference encoding: {}\n{src}", a.is_some(), b.is_some()); std::process::exit(1) };
+            let (Some(a), Some(b)) = (a, b) else { if known(format!("`{name}` of text #{ti} is missing from one encoding: {}", src.replace('\n', " ")), &mut findings) { continue 'texts; } println!("C05-BOUNDED VIOLATION: `{name}` of text #{ti} is exported by WAC's encoding: {}, by the reference encoding: {}\n{src}", a.is_some(), b.is_some()); std::process::exit(1) };
             let (a, b) = (as_item(counterpart(&types, a)), as_item(counterpart(&types, b)));
             let mut cache = HashSet::new();
             let mut chk = SubtypeChecker::new(&mut cache);
             let ab = chk.is_subtype(a, &types, b, &types);
             let ba = chk.is_subtype(b, &types, a, &types);
             if let (Err(e), _) | (_, Err(e)) = (&ab, &ba) {
+                if known(format!("`{name}` of text #{ti}: not mutual subtypes (wac<=wit: {}, wit<=wac: {}; {e:#}): {}", ab.is_ok(), ba.is_ok(), src.replace('\n', " ")), &mut findings) { continue 'texts; }
                 println!("C05-BOUNDED VIOLATION: `{name}` of text #{ti}: WAC's type and the reference WIT encoding are not mutual subtypes (wac<=wit: {}, wit<=wac: {}): {e:#}\n{src}", ab.is_ok(), ba.is_ok());
                 std::process::exit(1);
             }
@@ -79,11 +87,13 @@ fn main() {
                     let names = |w: wac_types::WorldId| (types[w].imports.keys().cloned().collect::<Vec<_>>(), types[w].exports.keys().cloned().collect::<Vec<_>>());
                     let (na, nb) = (names(wa), names(wb));
                     let sorted = |mut v: Vec<String>| { v.sort(); v };
-                    if sorted(na.0.clone()) != sorted(nb.0.clone()) || sorted(na.1.clone()) != sorted(nb.1.clone()) { println!("C05-BOUNDED VIOLATION: world `{name}` of text #{ti}: WAC imports/exports {:?}, reference {:?}\n{src}", na, nb); std::process::exit(1); }
+                    if sorted(na.0.clone()) != sorted(nb.0.clone()) || sorted(na.1.clone()) != sorted(nb.1.clone()) { if known(format!("world `{name}` of text #{ti}: WAC imports/exports {:?}, reference {:?}: {}", na, nb, src.replace('\n', " ")), &mut findings) { continue 'texts; } println!("C05-BOUNDED VIOLATION: world `{name}` of text #{ti}: WAC imports/exports {:?}, reference {:?}\n{src}", na, nb); std::process::exit(1); }
                 } else { println!("C05-BOUNDED VIOLATION: world `{name}` of text #{ti} does not decode to a component type on both sides ({a:?} / {b:?})"); std::process::exit(1); }
             }
             if samples.len() < 3 { samples.push(format!("text #{ti} `{name}`: mutual subtypes")); }
         }
     }
-    println!("C05-WIT ok {{\"bounded\": true, \"evaluations\": {decls}, \"distinct_nontrivial\": {decls}, \"texts\": {texts_n}, \"samples\": {:?}}}", samples);
+    for f in &findings { println!("{f}"); }
+    println!("C05-WIT {} {{\"bounded\": true, \"evaluations\": {decls}, \"distinct_nontrivial\": {decls}, \"texts\": {texts_n}, \"samples\": {:?}}}", if findings.is_empty() { "ok" } else { "findings" }, samples);
+    std::process::exit(if findings.is_empty() { 0 } else { 3 });
 }
